@@ -330,11 +330,12 @@ type world struct {
 	all  []*update          // every completed recording call, in call order
 	hist []string
 	// what the oracle needs to know about the Store calls so far
-	storeErrs   int
-	tooLong     bool // some Store call failed with bufio.ErrTooLong
-	unflushed   bool // some update was recorded after the last Store call
-	reusedRef   bool // the scenario scripted a uuid that was already written out
-	rawScenario bool
+	storeErrs     int
+	tooLong       bool // some Store call failed with bufio.ErrTooLong
+	unflushed     bool // some update was recorded after the last Store call
+	reusedRef     bool // the scenario scripted a uuid that was already written out
+	rawScenario   bool
+	loaderProblem string // set by runLoader: retained entries changed, or a non-nil empty slice
 }
 
 func newWorld(r *hx.Run, p *pool) *world {
@@ -616,6 +617,7 @@ func (w *world) store() {
 	w.r.Count("store:entries=" + sizeBucket(len(order)))
 	if err != nil {
 		w.storeErrs++
+		w.hist = append(w.hist, "(Store returned: "+err.Error()+")")
 		w.r.Count("store:err")
 		if errors.Is(err, bufio.ErrTooLong) {
 			w.tooLong = true
@@ -648,9 +650,40 @@ func (w *world) runLoader(b []byte) (string, []loaded, string) {
 	var parts []string
 	var got []loaded
 	fin := ""
+	w.loaderProblem = ""
 	l, err := jsonblob.Load(context.Background(), bytes.NewReader(b))
 	if err != nil {
 		return "loaderr", nil, "loaderr"
+	}
+	// Every Entry is looked at twice: immediately after the Next call that
+	// reported it, and again when the iteration is over -- through the *Entry
+	// pointer and through the Vuln / Enrichment slice values kept from the
+	// first look (a caller that gathers the entries sees the second view).
+	type kept struct {
+		ent   *jsonblob.Entry
+		vuln  []*claircore.Vulnerability
+		enr   []driver.EnrichmentRecord
+		first string
+	}
+	var keep []kept
+	view := func(updater, fp string, vs []*claircore.Vulnerability, es []driver.EnrichmentRecord) (loaded, string) {
+		ld := loaded{updater: updater, fp: fp}
+		for _, v := range vs {
+			ld.v = append(ld.v, w.p.tokOfVuln(v))
+		}
+		for _, e := range es {
+			ld.e = append(ld.e, w.p.tokOfEnrichment(e))
+		}
+		// a slice no record was appended to is nil in the code as it stands;
+		// a non-nil empty one is shown as [] (OfflineImport tests `!= nil`)
+		vt, et := joinS(ld.v), joinS(ld.e)
+		if len(vs) == 0 && vs != nil {
+			vt = "[]"
+		}
+		if len(es) == 0 && es != nil {
+			et = "[]"
+		}
+		return ld, fmt.Sprintf("T/%s/%s/%s/%s", hx.Hex([]byte(updater)), hx.Hex([]byte(fp)), vt, et)
 	}
 	max := bytes.Count(b, []byte("\n")) + 5
 	for i := 0; ; i++ {
@@ -677,15 +710,28 @@ func (w *world) runLoader(b []byte) (string, []loaded, string) {
 			got = append(got, loaded{nilEntry: true})
 			continue
 		}
-		ld := loaded{updater: ent.Updater, fp: string(ent.Fingerprint)}
-		for _, v := range ent.Vuln {
-			ld.v = append(ld.v, w.p.tokOfVuln(v))
-		}
-		for _, e := range ent.Enrichment {
-			ld.e = append(ld.e, w.p.tokOfEnrichment(e))
-		}
+		ld, txt := view(ent.Updater, string(ent.Fingerprint), ent.Vuln, ent.Enrichment)
 		got = append(got, ld)
-		parts = append(parts, fmt.Sprintf("T/%s/%s/%s/%s", hx.Hex([]byte(ld.updater)), hx.Hex([]byte(ld.fp)), joinS(ld.v), joinS(ld.e)))
+		parts = append(parts, txt)
+		keep = append(keep, kept{ent: ent, vuln: ent.Vuln, enr: ent.Enrichment, first: txt})
+		if (len(ent.Vuln) == 0 && ent.Vuln != nil) || (len(ent.Enrichment) == 0 && ent.Enrichment != nil) {
+			if w.loaderProblem == "" {
+				w.loaderProblem = fmt.Sprintf("entry %d (%s) reports a non-nil empty record slice of the kind it has no records of", len(keep)-1, txt)
+			}
+		}
+	}
+	for i, k := range keep {
+		if w.loaderProblem != "" {
+			break
+		}
+		if _, again := view(k.ent.Updater, string(k.ent.Fingerprint), k.ent.Vuln, k.ent.Enrichment); again != k.first {
+			w.loaderProblem = fmt.Sprintf("entry %d was %s when Next reported it and is %s after the iteration (the *Entry was modified by later Next calls)", i, k.first, again)
+			break
+		}
+		if _, again := view(k.ent.Updater, string(k.ent.Fingerprint), k.vuln, k.enr); again != k.first {
+			w.loaderProblem = fmt.Sprintf("the record slices of entry %d were %s when Next reported it and hold %s after the iteration (their backing arrays were reused)", i, k.first, again)
+			break
+		}
 	}
 	parts = append(parts, fin)
 	return strings.Join(parts, " "), got, fin
@@ -742,6 +788,10 @@ func (w *world) oracle(got []loaded, fin string) {
 			w.r.Fail("", "Next reported true with a nil Entry: "+w.witness())
 			return
 		}
+	}
+	if w.loaderProblem != "" {
+		w.r.Fail("", "loaded entries are not stable values: "+w.loaderProblem+": "+w.witness())
+		return
 	}
 	if w.unflushed || w.reusedRef {
 		return
@@ -911,24 +961,26 @@ func (w *world) query() {
 // Witnesses of the defects of DESIGN section 5 rows 12 and 13 and the other
 // corner cases named in the property's quantifier.
 var builtin = []string{
-	"S L",                      // empty recording (row 13, repaired): no entries
-	"L",                        // nothing written at all
-	"v0 S L",                   // only a zero-length update (row 12)
-	"e0 S L",                   //
-	"v1 S L",                   // single record
-	"e1 S L",                   //
-	"v2 v0 e3 S L",             // zero-length update among others
+	"S L",                                  // empty recording (row 13, repaired): no entries
+	"L",                                    // nothing written at all
+	"v0 S L",                               // only a zero-length update (row 12)
+	"e0 S L",                               //
+	"v1 S L",                               // single record
+	"e1 S L",                               //
+	"v1 v2 v3 v2 v1 S L",                   // five entries of one kind: entries kept across Next calls must not change
+	"e2 e1 e3 e1 S L",                      //
+	"v2 v0 e3 S L",                         // zero-length update among others
 	"v3:same:fp v2:same:fp e1:same:fp S L", // repeated updater and fingerprint
-	"v2 c1 v1 c3 e2 S L Q",     // uuid collisions in the retry loop
-	"v2 S v3 S e1 S L",         // several flushes to one writer
-	"v1 S S L",                 // second Store writes nothing
-	"v2 S L X v3 S L",          // a uuid drawn again after its entry was written out
-	"Q v1 Q e1 Q S Q",          // latest refs, Initialized
-	"d3 d0 S L",                // delta updates
+	"v2 c1 v1 c3 e2 S L Q",                 // uuid collisions in the retry loop
+	"v2 S v3 S e1 S L",                     // several flushes to one writer
+	"v1 S S L",                             // second Store writes nothing
+	"v2 S L X v3 S L",                      // a uuid drawn again after its entry was written out
+	"Q v1 Q e1 Q S Q",                      // latest refs, Initialized
+	"d3 d0 S L",                            // delta updates
 }
 
 var builtinBig = []string{
-	"B1048575 S L",       // largest line that fits the 1 MiB scanner buffer
+	"B1048575 S L",        // largest line that fits the 1 MiB scanner buffer
 	"B1048576 v2 S L S L", // one byte more: Store fails with ErrTooLong
 	"E1048575 e1 S L",
 	"E1048577 S L",
@@ -1185,6 +1237,9 @@ func rawFile(r *hx.Run, rnd *hx.Rand, p *pool, items []string) {
 			r.Fail("", "Next reported true with a nil Entry on the hand-made file ["+arg+"]")
 			break
 		}
+	}
+	if w.loaderProblem != "" {
+		r.Fail("", "loaded entries are not stable values: "+w.loaderProblem+" on the hand-made file ["+arg+"]")
 	}
 }
 
